@@ -3,7 +3,9 @@ package wq
 import (
 	"bytes"
 	"fmt"
+	"io"
 	"math/rand"
+	"net"
 	"strconv"
 	"strings"
 	"sync"
@@ -11,6 +13,7 @@ import (
 
 	"github.com/emitter-io/emitter/internal/network/listener"
 	"github.com/emitter-io/emitter/internal/network/mqtt"
+	"github.com/emitter-io/emitter/internal/network/websocket"
 	"github.com/emitter-io/emitter/verif/bk"
 	"github.com/emitter-io/emitter/verif/core"
 	"github.com/emitter-io/emitter/verif/memconn"
@@ -20,13 +23,78 @@ import (
 // the periodic flush timer, as behind the broker's TCP listener) and whose inbound bytes are kept raw: the framing is
 // judged by the parser below, not by the repository's decoder.
 type rawClient struct {
+	ws   *fakeWS // set for a websocket client (then c is nil)
 	c    *memconn.Conn
 	mu   sync.Mutex
 	buf  []byte
 	done chan struct{}
 }
 
+// fakeWS is the frame source / sink under the broker's websocket transport (what gorilla's *websocket.Conn is in
+// production).  Like gorilla it allows ONE writer at a time; unlike gorilla it does not panic on a second one but
+// remembers it, and the subscriber's stream then ends with a torn-packet marker.
+type fakeWS struct {
+	in         chan []byte
+	closed     chan struct{}
+	once       sync.Once
+	mu         sync.Mutex
+	open       int
+	concurrent bool
+	rc         *rawClient
+}
+
+type wsWriter struct {
+	ws  *fakeWS
+	buf []byte
+}
+
+func (w *wsWriter) Write(p []byte) (int, error) { w.buf = append(w.buf, p...); return len(p), nil }
+func (w *wsWriter) Close() error {
+	w.ws.mu.Lock()
+	w.ws.open--
+	w.ws.mu.Unlock()
+	w.ws.rc.mu.Lock()
+	w.ws.rc.buf = append(w.ws.rc.buf, w.buf...)
+	w.ws.rc.mu.Unlock()
+	return nil
+}
+
+func (f *fakeWS) NextReader() (int, io.Reader, error) {
+	select {
+	case b := <-f.in:
+		return 2, bytes.NewReader(b), nil // binary message
+	case <-f.closed:
+		return 0, nil, io.EOF
+	}
+}
+func (f *fakeWS) NextWriter(int) (io.WriteCloser, error) {
+	f.mu.Lock()
+	f.open++
+	if f.open > 1 {
+		f.concurrent = true
+	}
+	f.mu.Unlock()
+	time.Sleep(5 * time.Microsecond) // widen the window in which a second, unserialised writer would show
+	return &wsWriter{ws: f}, nil
+}
+func (f *fakeWS) Close() error                     { f.once.Do(func() { close(f.closed) }); return nil }
+func (f *fakeWS) LocalAddr() net.Addr              { return &net.TCPAddr{} }
+func (f *fakeWS) RemoteAddr() net.Addr             { return &net.TCPAddr{} }
+func (f *fakeWS) SetReadDeadline(time.Time) error  { return nil }
+func (f *fakeWS) SetWriteDeadline(time.Time) error { return nil }
+
+// attachWS connects a client through the broker's websocket transport; every packet the client sends is one frame.
+func attachWS(b *bk.Broker) *rawClient {
+	rc := &rawClient{done: make(chan struct{})}
+	rc.ws = &fakeWS{in: make(chan []byte, 1<<16), closed: make(chan struct{}), rc: rc}
+	b.Svc.VerifAttach(websocket.VerifNewTransport(rc.ws))
+	return rc
+}
+
 func attachRaw(b *bk.Broker, rate int) *rawClient {
+	if rate < 0 {
+		return attachWS(b)
+	}
 	c, s := memconn.Pair()
 	b.Svc.VerifAttach(listener.VerifNewConn(s, rate, true))
 	rc := &rawClient{c: c, done: make(chan struct{})}
@@ -48,7 +116,19 @@ func attachRaw(b *bk.Broker, rate int) *rawClient {
 	return rc
 }
 
-func (rc *rawClient) send(m mqtt.Message) { m.EncodeTo(rc.c) }
+func (rc *rawClient) send(m mqtt.Message) {
+	var b bytes.Buffer
+	m.EncodeTo(&b)
+	rc.write(b.Bytes())
+}
+
+func (rc *rawClient) write(p []byte) {
+	if rc.ws != nil {
+		rc.ws.in <- append([]byte{}, p...)
+		return
+	}
+	rc.c.Write(p)
+}
 
 // packets splits the raw inbound bytes into MQTT packets by the fixed header alone. ok is false when the bytes do
 // not end on a packet boundary (yet).
@@ -102,7 +182,7 @@ func (rc *rawClient) waitPong(pongs int, d time.Duration) error {
 
 // BrokerStress runs really concurrent publishers through a whole broker: npub clients publish n messages each to one
 // channel while nsub subscribed clients receive them; every connection sits behind a real listener.Conn with the
-// given flush rate.  One "stream" event per subscriber: the decoded sequence of (publisher, index) it received.
+// given flush rate (rate < 0: behind the websocket transport instead).  One "stream" event per subscriber: the decoded sequence of (publisher, index) it received.
 func BrokerStress(rate, npub, nsub, n int, rng *rand.Rand, label string) ([]*core.Trace, error) {
 	b, err := bk.New(bk.Opts{LicenseVer: 1 + rng.Intn(3), Storage: "noop", NoCluster: true})
 	if err != nil {
@@ -144,7 +224,7 @@ func BrokerStress(rate, npub, nsub, n int, rng *rand.Rand, label string) ([]*cor
 			r := rand.New(rand.NewSource(seed))
 			for i := 1; i <= n; i++ {
 				pad := strings.Repeat(string(rune('a'+w)), sizes[r.Intn(len(sizes))])
-				pubs[w].c.Write(rawPublish(topic, []byte(fmt.Sprintf("w%d|%d|%s", w+1, i, pad))))
+				pubs[w].write(rawPublish(topic, []byte(fmt.Sprintf("w%d|%d|%s", w+1, i, pad))))
 				if r.Intn(8) == 0 {
 					time.Sleep(time.Duration(r.Intn(60)) * time.Microsecond)
 				}
@@ -167,7 +247,13 @@ func BrokerStress(rate, npub, nsub, n int, rng *rand.Rand, label string) ([]*cor
 			continue
 		}
 		pk, _ := s.packets()
-		out = append(out, streamTrace(fmt.Sprintf("%s-s%d", label, si), rate, writers, n, pk, false))
+		concurrent := false
+		if s.ws != nil {
+			s.ws.mu.Lock()
+			concurrent = s.ws.concurrent
+			s.ws.mu.Unlock()
+		}
+		out = append(out, streamTrace(fmt.Sprintf("%s-s%d", label, si), rate, writers, n, pk, concurrent))
 	}
 	return out, nil
 }
